@@ -441,6 +441,17 @@ theorem typeData_eq_describeType {S : Schema} (hf : Facts S) (F : List String) {
 
 /-! ### Closure of the visible schema, references of a description -/
 
+theorem mem_visible_directives {S : Schema} {F : List String} {dd : DirectiveDef Unit} :
+    dd ∈ (visible S F).directives ↔ ∃ d0 ∈ S.defn.directives, visibleDirective S.defn F d0 = dd := by
+  simp [visible, List.mem_map]
+
+theorem visibleDirective_name {ι : Type} (d : SchemaDef ι) (F : List String) (dd : DirectiveDef ι) :
+    (visibleDirective d F dd).name = dd.name := rfl
+
+theorem visible_directives_names (S : Schema) (F : List String) :
+    (visible S F).directives.map (·.name) = S.defn.directives.map (·.name) := by
+  simp [visible, List.map_map, Function.comp_def, visibleDirective_name]
+
 theorem mem_visible_names {S : Schema} (hf : Facts S) {F : List String} {n : String}
     (h : visibleName S F n = true) : n ∈ (visible S F).types.map (·.name) := by
   rw [visible_types_names]
@@ -752,7 +763,7 @@ theorem ids_cloneDef {b : Nat} {d : GDef} (hc : InspectClosed d) : ∀ n ∈ (cl
   · exact ids_cloneDirectiveDef _ n hn
 
 
-theorem visible_closed' {S : Schema} (h : Accepted S) (hd : DirArgsUngated S) (F : List String) :
+theorem visible_closed' {S : Schema} (h : Accepted S) (F : List String) :
     ClosedV (visible S F) := by
   have hf := facts_of_accepted h
   constructor
@@ -804,10 +815,9 @@ theorem visible_closed' {S : Schema} (h : Accepted S) (hd : DirArgsUngated S) (F
         (subsetOf_trans (hf.memberFeat t ht hreg hkind n hm') htF)
   · intro dd hdd a ha
     apply mem_visible_names hf
-    have hdd' : dd ∈ S.defn.directives := hdd
-    apply visibleName_of (hf.dirArgsReg dd hdd' a ha)
-    rw [dirArgFeat_of hd dd hdd' a ha]
-    rfl
+    obtain ⟨d0, hd0, rfl⟩ := mem_visible_directives.mp hdd
+    have ha' := List.mem_filter.mp ha
+    exact visibleName_of (hf.dirArgsReg d0 hd0 a ha'.1) ha'.2
 
 
 
@@ -1205,10 +1215,10 @@ theorem kindIn_visible {S : Schema} (hf : Facts S) {F : List String} {n : String
     exact hk (hf.builtinScalar tn hm (by rw [hn]; exact hb))
   simp [hnb]
 
-theorem rebuildOk_visible {S : Schema} (h : Accepted S) (hd : DirArgsUngated S) {F : List String}
+theorem rebuildOk_visible {S : Schema} (h : Accepted S) {F : List String}
     (hg : RebuildGuards S F) : RebuildOk (visible S F) := by
   have hf := facts_of_accepted h
-  have hc := visible_closed' h hd F
+  have hc := visible_closed' h F
   have hlisted : ∀ n, n ∈ (visible S F).types.map (·.name) → Listed (kindTable (sortDefs (visible S F).types)) n :=
     fun n hn => listed_kindTable hn
   have hrootk : ∀ n ∈ optList S.defn.query ++ optList S.defn.mutation ++ optList S.defn.subscription,
@@ -1230,7 +1240,7 @@ theorem rebuildOk_visible {S : Schema} (h : Accepted S) (hd : DirArgsUngated S) 
       · rename_i hfe
         simp at h; subst h; exact ⟨rfl, hfe⟩
       · simp at h
-  refine ⟨visible_types_nodup hf F, ?_, ?_, ?_, ?_, hf.dirsNodup, ?_⟩
+  refine ⟨visible_types_nodup hf F, ?_, ?_, ?_, ?_, by rw [visible_directives_names]; exact hf.dirsNodup, ?_⟩
   · intro u hu
     have hu' := hu
     simp only [visible, List.mem_map, List.mem_filter] at hu'
@@ -1277,10 +1287,11 @@ theorem rebuildOk_visible {S : Schema} (h : Accepted S) (hd : DirArgsUngated S) 
     obtain ⟨hs', hfe⟩ := hvr S.defn.subscription s hs
     exact hrootk s (by simp [optList, hs']) hfe
   · intro dd hdd
-    have hdd' : dd ∈ S.defn.directives := hdd
-    refine ⟨hg.locs dd hdd', ?_, hf.dirArgsNodup dd hdd'⟩
+    obtain ⟨d0, hd0, hdd0⟩ := mem_visible_directives.mp hdd
+    subst hdd0
+    refine ⟨hg.locs d0 hd0, ?_, (hf.dirArgsNodup d0 hd0).sublist ((List.filter_sublist).map _)⟩
     intro a ha
-    exact ⟨hg.dirDepth dd hdd' a ha, hlisted _ (hc.2 dd hdd a ha)⟩
+    exact ⟨hg.dirDepth d0 hd0 a (List.mem_filter.mp ha).1, hlisted _ (hc.2 _ hdd a ha)⟩
 
 
 end ApiFu.C10
